@@ -129,4 +129,27 @@ def initCase (id : String) (payload : List Sexp) : List String :=
     | none => err id "bad-timeout"
   | _ => err id "bad-init-case"
 
+def parseKOp : Sexp → Option KOp
+  | .list [.atom "new", t, o] => do some (.new (← t.asNat?) (← parseOpts o))
+  | .list [.atom "with", j, o] => do some (.withOpt (← j.asNat?) (← parseOpt o))
+  | .list [.atom "again", j] => do some (.again (← j.asNat?))
+  | _ => none
+
+def showKOut : KOut → String
+  | .made t c => s!"made:{t} " ++ confLine c ++ " trace=" ++ showTrace (trace (buildMiddleware c))
+  | .done => "ok"
+  | .seen c => "seen " ++ confLine c ++ " trace=" ++ showTrace (trace (buildMiddleware c))
+  | .noSuch => "no-such-client"
+
+/-- `(clients (ops (new T (opts …)) (with j OPT) (again j) …))`: clients that keep their RestConf, looked at again later -/
+def clientsCase (id : String) (payload : List Sexp) : List String :=
+  match payload with
+  | [.list (.atom "ops" :: ops)] =>
+    match ops.mapM parseKOp with
+    | some h =>
+      let sh (os : List KOut) := (os.zipIdx).map (fun (o, i) => (s!"op{i}", showKOut o))
+      both id (sh (runClients Heap.init [] h)) (sh (specClients [] h))
+    | none => err id "bad-ops"
+  | _ => err id "bad-clients-case"
+
 end ShootVerif.Drive
